@@ -11,6 +11,7 @@ import (
 	"fmt"
 	"net"
 	"sync"
+	"sync/atomic"
 	"time"
 
 	"github.com/codelaboratoryltd/bng/pkg/dhcp"
@@ -174,10 +175,10 @@ func (d *V4) Build(m Msg) (*dhcpv4.DHCPv4, error) {
 	if err != nil {
 		return nil, err
 	}
-	d.xid++
+	dx := atomic.AddUint32(&d.xid, 1)
 	xid := m.XID
 	if xid == 0 {
-		xid = d.xid
+		xid = dx
 	}
 	p.TransactionID = dhcpv4.TransactionID{byte(xid >> 24), byte(xid >> 16), byte(xid >> 8), byte(xid)}
 	p.OpCode = dhcpv4.OpcodeBootRequest
